@@ -2,14 +2,18 @@ package qa
 
 import (
 	"bytes"
+	"context"
 	"fmt"
+	"net"
 	"strings"
 	"time"
 
 	"github.com/emersion/go-message/textproto"
+	"github.com/foxcpp/go-mockdns"
 	"github.com/foxcpp/maddy/framework/config"
 	"github.com/foxcpp/maddy/framework/log"
 	"github.com/foxcpp/maddy/framework/module"
+	"github.com/foxcpp/maddy/internal/target/remote"
 	smtpdown "github.com/foxcpp/maddy/internal/target/smtp"
 	"github.com/foxcpp/maddy/internal/verifsim/actors"
 	"github.com/foxcpp/maddy/internal/verifsim/harness"
@@ -52,6 +56,22 @@ func genOutcomes(t *simrt.Tape, n, num int) []actors.Outcome {
 	return out
 }
 
+// flakyMX fails the first n MX lookups temporarily (discovery failure defers).
+type flakyMX struct {
+	*mockdns.Resolver
+	s *simrt.Sim
+	n int
+}
+
+func (r *flakyMX) LookupMX(ctx context.Context, name string) ([]*net.MX, error) {
+	if r.n > 0 {
+		r.n--
+		r.s.Stat("fault_dns_mx_tempfail")
+		return nil, &net.DNSError{Err: "scripted SERVFAIL", Name: name, IsTemporary: true}
+	}
+	return r.Resolver.LookupMX(ctx, name)
+}
+
 // RunQB is the world function for the real-client part of C01 and C09.
 func RunQB(s *simrt.Sim, a *harness.Args, r *harness.Result) {
 	log.DefaultLogger.Out = log.NopOutput{}
@@ -59,7 +79,9 @@ func RunQB(s *simrt.Sim, a *harness.Args, r *harness.Result) {
 	w := &World{s: s, a: a, prop: a.Prop, closeDone: map[int]bool{}}
 	sc := &Scenario{Bounce: true, Partial: true}
 	w.sc = sc
-	lmtp := s.T.Choose(st, 2) == 1
+	kindN := s.T.Choose(st, 3) // 0 target.smtp, 1 target.lmtp, 2 target.remote
+	lmtp := kindN == 1
+	isRemote := kindN == 2
 	sc.MaxTries = 1 + s.T.Choose(st, 3)
 	sc.Retry = []time.Duration{time.Second, 15 * time.Minute}[s.T.Choose(st, 2)]
 	sc.Scale = 1
@@ -86,6 +108,14 @@ func RunQB(s *simrt.Sim, a *harness.Args, r *harness.Result) {
 		sc.Msgs = append(sc.Msgs, m)
 	}
 	total := nm * sc.MaxTries
+	if isRemote {
+		// one transaction per destination domain and attempt
+		total *= 3
+	}
+	dnsFailN := 0
+	if isRemote {
+		dnsFailN = []int{0, 0, 1, 2}[s.T.Choose(st, 4)]
+	}
 	plan.Greeting = genOutcomes(s.T, total, num/2)
 	plan.Mail = genOutcomes(s.T, total, num/2)
 	plan.Data = genOutcomes(s.T, total, num/2)
@@ -127,7 +157,32 @@ func RunQB(s *simrt.Sim, a *harness.Args, r *harness.Result) {
 	var down module.DeliveryTarget
 	var berr error
 	built := false
+	if isRemote {
+		modName = "target.remote"
+	}
+	var rt *remote.Target
 	s.Spawn("boot0", nil, func() {
+		if isRemote {
+			// the real remote-MX target without security policies: MX lookup
+			// (stub zone), connection cache, one transaction per domain
+			mod, err := remote.New("target.remote", "remote", nil, nil)
+			if err == nil {
+				rt = mod.(*remote.Target)
+				rt.Log = log.Logger{Out: log.NopOutput{}, Name: "remote"}
+				err = rt.Init(config.NewMap(nil, config.Node{Children: []config.Node{{Name: "hostname", Args: []string{"mx.sim.example"}}}}))
+			}
+			if err == nil {
+				zone := mockdns.Zone{MX: []net.MX{{Host: "mx1.dest.example.", Pref: 10}}}
+				res := &flakyMX{s: s, n: dnsFailN, Resolver: &mockdns.Resolver{Zones: map[string]mockdns.Zone{
+					"dest.example.": zone, "тест.example.": zone, "xn--e1aybc.example.": zone}}}
+				remote.VerifSetPort("2525")
+				rt.VerifSeams(res, nw.Dialer("192.0.2.1:40000"), actors.SharedPKI().Roots, nil, nil)
+				down = rt
+			}
+			berr = err
+			built = true
+			return
+		}
 		mod, err := smtpdown.NewDownstream(modName, "down", nil, []string{"tcp://" + mxAddr})
 		if err != nil {
 			berr = err
@@ -172,17 +227,39 @@ func RunQB(s *simrt.Sim, a *harness.Args, r *harness.Result) {
 	}
 	inc1 := w.inc
 	w.prodTotal = len(sc.Msgs)
+	prodFinished := false
 	s.Spawn("prod-seq", inc1, func() {
 		for _, m := range sc.Msgs {
 			w.producer(m, inc1)()
 		}
+		prodFinished = true
 	})
-	res := s.Run(w.horizon(), nil)
+	var settled func() bool
+	if isRemote {
+		// the connection cache's sweeper ticks for ever: the run is over when
+		// the spool is empty (or after a generous amount of simulated time)
+		start := time.Now()
+		limit := 3 * w.horizon()
+		settled = func() bool {
+			return (prodFinished && len(w.fs.Names(spool)) == 0) || time.Since(start) > limit
+		}
+	}
+	res := s.Run(w.horizon(), settled)
+	if isRemote && len(w.fs.Names(spool)) > 0 && len(s.Violations()) == 0 {
+		w.violateHang(fmt.Sprintf("spool not empty after %v; parked=%v", 3*w.horizon(), s.ParkedKeys()))
+	}
 	if res == simrt.Budget {
 		w.violateHang(fmt.Sprintf("step budget exhausted; parked=%v", s.ParkedKeys()))
 	}
 	if w.hang == "" {
 		w.closeLive()
+	}
+	if rt != nil && w.hang == "" {
+		// closes the cached connections and stops the cache's sweeper
+		closed := false
+		s.Spawn("rtclose", nil, func() { rt.Close(); closed = true })
+		s.Run(time.Minute, func() bool { return closed })
+		s.Run(time.Second, nil)
 	}
 	for _, p := range s.Panics() {
 		if p.Func != "HARNESS" {
@@ -190,12 +267,15 @@ func RunQB(s *simrt.Sim, a *harness.Args, r *harness.Result) {
 		}
 	}
 	if len(s.Violations()) == 0 && a.Prop == "C01" {
-		w.oracleQB(mx, plan)
+		w.oracleQB(mx, plan, isRemote)
 		w.settleHang(0)
 	}
 	kind := "smtp"
 	if lmtp {
 		kind = "lmtp"
+	}
+	if isRemote {
+		kind = fmt.Sprintf("remote dnsfail=%d", dnsFailN)
 	}
 	r.Shape = fmt.Sprintf("%s utf8srv=%v tries=%d retry=%v msgs=%d f=%d", kind, plan.SMTPUTF8, sc.MaxTries, sc.Retry, nm, num)
 	for _, m := range sc.Msgs {
@@ -223,13 +303,16 @@ func (w *World) bootWith(delay time.Duration, down module.DeliveryTarget) {
 }
 
 // oracleQB: conservation at the server boundary.
-func (w *World) oracleQB(mx *actors.ScriptedMX, plan *actors.MXPlan) {
+func (w *World) oracleQB(mx *actors.ScriptedMX, plan *actors.MXPlan, isRemote bool) {
 	s := w.s
 	reps := w.reports()
 	recv := mx.Received()
 	kind := "smtp-client"
 	if plan.LMTP {
 		kind = "lmtp-client"
+	}
+	if isRemote {
+		kind = "remote-client"
 	}
 	for _, m := range w.sc.Msgs {
 		if !m.acked {
